@@ -110,6 +110,8 @@ def main():
     if model_ok:
         try:
             mod.correspondence(ctx)
+        except common.GiveUp as e:
+            ctx.notes.append("correspondence cut short: %s" % e)
         except common.subprocess.TimeoutExpired:
             print("harness timeout in correspondence", file=sys.stderr)
             return 2
@@ -134,6 +136,8 @@ def main():
     # ---------------- D: oracle on the real code ----------------------------------------
     try:
         mod.oracle(ctx)
+    except common.GiveUp as e:
+        ctx.notes.append("oracle cut short: %s" % e)
     except common.subprocess.TimeoutExpired:
         print("harness timeout in oracle", file=sys.stderr)
         return 2
